@@ -4,7 +4,7 @@
 // operations and SIGUSR1 storms (handler without SA_RESTART) aimed at threads that may be parked in sem_wait /
 // sem_timedwait.  After every round the main thread drains the semaphore with polling waits.
 // usage: c08_sema <seed> <rounds> <perturb_permille>
-// output: "S <round> <v> <nthreads> <drained> <off_sema> <rescues>" lines (or a final "H <round> <v> <nthreads> <rescues> <stuck>" when
+// output: "S <round> <v> <nthreads> <drained> <off_sema> <rescues> <final dsema_value> <final kernel count>" lines (or a final "H <round> <v> <nthreads> <rescues> <stuck>" when
 //         waiters stay parked although > 5000 rescue signals arrived over > 15 s), then the recorder dump (E lines; obj = round;
 //         offset 0 = dsema_value, offset <off_sema> = dsema_sema).
 // harness events: DVU_CALL a = 0 (signal) | 1 (wait), b = timeout argument;
@@ -139,7 +139,8 @@ int main(int argc, char **argv) {
 		// quiescent: drain with polling waits; the number that succeed is the number of permits that remained
 		long drained = 0;
 		while (do_wait(cur, i, DISPATCH_TIME_NOW, 0) == 0) drained++;
-		printf("S %d %ld %d %ld %ld %d\n", i, v, n, drained, off_sema, rescues);
+		int kcount = -1; sem_getvalue(&cur->dsema_sema, &kcount);   // the words the round ends with (whole-round replay compares them)
+		printf("S %d %ld %d %ld %ld %d %ld %d\n", i, v, n, drained, off_sema, rescues, (long)cur->dsema_value, kcount);
 		// the object is leaked on purpose: disposing a semaphore whose value is below its initial value crashes
 		if (i % 60 == 59) dv_untrack_all();
 	}
